@@ -166,6 +166,23 @@ Equality of the per-module output between two different compilations is not comp
     // C12.scope (= C09.scope): a named number in a constraint is looked up in the governing type (and the chain of type
     // references behind it) — a lookup that reaches past it searches the definitions of *every* module compiled alongside
     super::c09::scope(m, ctx, "C12.scope");
+    // C12.imports:parser — "each IMPORTS clause becomes a use declaration" presupposes that the clause is read whatever its
+    // layout: the token-boundary analysis of C13 is run and its reports for the module-header parsers are taken over
+    {
+        let mut sub = Ctx::new("C13", "quick", &ctx.verif);
+        super::c13::run(m, &mut sub);
+        let mut n = 0;
+        for v in sub.violations.iter().filter(|v| (v.rule == "C13.boundary" || v.rule == "C13.mandatory" || v.rule == "C13.words") && (v.key.contains("lexer::module_header") || v.file.ends_with("lexer/module_header.rs"))) {
+            // recorded C13 findings are C13's business; here only what C13 would report as new
+            if v.key.starts_with("finding:") {
+                continue;
+            }
+            n += 1;
+            ctx.violate("C12.imports", &format!("parser:{}", v.key), &v.file, v.line, &format!("module header / IMPORTS parser: {}", v.msg));
+        }
+        ctx.oblige("C12.imports", "parser-boundaries", true);
+        let _ = n;
+    }
 }
 
 /// definitions are grouped back into modules by their own header's name
